@@ -985,7 +985,9 @@ impl<'a> Gen<'a> {
         if self.profile.options && self.rng.chance(1, 3) {
             r.rename_all = Some(*self.rng.pick(&RULES));
         }
-        let n = self.rng.range(1, 4);
+        // (now and then a receiver with no field of its own: it still reads the attributes it lists, and
+        // everything in them is a mistake)
+        let n = if self.rng.chance(1, 8) { 0 } else { self.rng.range(1, 4) };
         let fs = self.fields(0, tr, n, false);
         r.shape = Shape::Struct(fs);
         let n_names = if tr == Trait::Attributes { self.rng.weighted(&[0, 6, 3, 1]) } else { self.rng.weighted(&[2, 6, 3, 1]) };
@@ -1038,13 +1040,23 @@ impl<'a> Gen<'a> {
             self.magic_fields(&mut r);
         }
         if !r.magic.is_empty() || r.attrs_field.is_some() {
-            // such a receiver cannot implement Default / From<Ident> (its magic field types do not)
-            r.cdefault = Def::None;
+            // such a receiver cannot implement Default / From<Ident> (its magic field types do not) ...
+            let keep = tr == Trait::TypeParam && r.attrs_field.is_none() && r.cdefault == Def::Trait;
+            // ... except a type-parameter receiver with a hand-written `Default` (an identifier, no bounds, a
+            // default type): its fallback instance is for the fields the attributes did not supply, never
+            // for what the parameter itself says
+            if !keep {
+                r.cdefault = Def::None;
+            }
             r.from_ident = false;
         }
         if self.profile.generic_recv && self.rng.chance(1, 3) {
             r.generics = (*self.rng.pick(&GENERIC_POOL)).to_string();
             make_generic_friendly(&mut r);
+            if !r.magic.is_empty() {
+                // (the hand-written fallback instance is not written generically)
+                r.cdefault = Def::None;
+            }
         }
         self.recvs[id] = r;
         // a newtype receiver of the same trait around it: `struct Outer(Inner);` hands the whole
